@@ -339,16 +339,20 @@ example : (Requester.process ⟨2, some [⟨1, some 7⟩, ⟨2, some 8⟩], 0, [
   decide
 
 /-- the hypothesis of `reply_delivered_once` holds along every requester history (await / send / peer frames
-    dispatched / peer frames taken by `sync`, including the compaction of the handler array and commands that
-    report failure, `fails`): the ids of the waiting handlers are always pairwise distinct -/
-theorem requester_ids_distinct (fails : Nat → Bool) (idlen : Nat) (ops : List Requester.ROp) :
-    (Requester.activeIds ((Requester.rrun fails { idlen := idlen } ops).1.arr.getD [])).Nodup :=
-  Requester.distinct_rrun fails { idlen := idlen } ops (by simp [Requester.Distinct, Requester.activeIds, Requester.active])
-example : (Requester.rrun (fun _ => false) { idlen := 1 } [.await 7, .send [1], .await 8, .send [2], .sync [[0x82, 5], [0x82, 6]], .await 9,
-    .answer [[0x81], [0x83]]]).2 = [⟨some 8, some [5]⟩, ⟨some 7, some []⟩, ⟨some 9, some []⟩] := by decide
+    dispatched / peer frames taken by `sync`, including the compaction of the handler array, commands that
+    report failure (`fails`) and commands that register a follow-up request while they handle their reply
+    (`follow`)): the ids of the waiting handlers are always pairwise distinct -/
+theorem requester_ids_distinct (fails : Nat → Bool) (follow : Nat → Option Nat) (idlen : Nat) (ops : List Requester.ROp) :
+    (Requester.activeIds ((Requester.rrun fails follow { idlen := idlen } ops).1.arr.getD [])).Nodup :=
+  Requester.distinct_rrun fails follow { idlen := idlen } ops (by simp [Requester.Distinct, Requester.activeIds, Requester.active])
+example : (Requester.rrun (fun _ => false) Requester.noFollow { idlen := 1 } [.await 7, .send [1], .await 8, .send [2],
+    .sync [[0x82, 5], [0x82, 6]], .await 9, .answer [[0x81], [0x83]]]).2 = [⟨some 8, some [5]⟩, ⟨some 7, some []⟩, ⟨some 9, some []⟩] := by decide
 -- a command that reports failure ends the wait; its reply is consumed, the next sync goes on with the following one
-example : (Requester.rrun (· == 8) { idlen := 1 } [.await 7, .send [1], .await 8, .send [2], .sync [[0x82, 5], [0x82, 6], [0x81, 4]],
-    .sync []]).2 = [⟨some 8, some [5]⟩, ⟨some 7, some [4]⟩] := by decide
+example : (Requester.rrun (· == 8) Requester.noFollow { idlen := 1 } [.await 7, .send [1], .await 8, .send [2],
+    .sync [[0x82, 5], [0x82, 6], [0x81, 4]], .sync []]).2 = [⟨some 8, some [5]⟩, ⟨some 7, some [4]⟩] := by decide
+-- command 7 registers request 70 while it handles its reply: the new request gets id 3 and its own reply later
+example : (Requester.rrun (fun _ => false) (fun t => if t = 7 then some 70 else none) { idlen := 1 } [.await 7, .send [1], .await 8, .send [2],
+    .sync [[0x81, 5]], .send [3], .sync [[0x83, 6], [0x82, 4]]]).2 = [⟨some 7, some [5]⟩, ⟨some 70, some [6]⟩, ⟨some 8, some [4]⟩] := by decide
 
 /-- **refinement Requester ⊑ ReplySpec.ReqSt, dispatching**: from related states (same header width, the waiting
     handlers of the slot array = the spec's pending set, same queue) every message is delivered to the same
@@ -363,8 +367,8 @@ theorem requester_refines_dispatch (x : Requester.St) (sp : ReqSt) (q : List (Li
     compacted afterwards) makes the same calls as the spec's "take replies while a request is outstanding" -/
 theorem requester_refines_sync (fails : Nat → Bool) (x : Requester.St) (sp : ReqSt) (fuel : Nat) (h : Requester.Rel x sp)
     (hf : x.inq.length < fuel) :
-    (Requester.sync fails x).2.map Requester.callS = (awaitReplies fails fuel sp.inq sp []).2 ∧
-    Requester.Rel (Requester.sync fails x).1 (awaitReplies fails fuel sp.inq sp []).1 :=
+    (Requester.sync fails Requester.noFollow x).2.map Requester.callS = (awaitReplies fails fuel sp.inq sp []).2 ∧
+    Requester.Rel (Requester.sync fails Requester.noFollow x).1 (awaitReplies fails fuel sp.inq sp []).1 :=
   Requester.rel_sync fails x sp fuel h hf
 
 /-- **… new requests**: the id `await` assigns (mpt_command_reserve) is one the spec accepts as fresh (≥ 1, fits
